@@ -152,8 +152,8 @@ def gen_cases(tier, seed, M):
             cm.append([n, 1])
         common[n] = [list(x) for x in dict.fromkeys(tuple(s) for s in cm)]
     # --- circuits
-    ncirc = 70 if quick else 700
-    nstab = 60 if quick else 500
+    ncirc = 48 if quick else 700
+    nstab = 40 if quick else 500
     ns = [1, 2, 2, 3, 3, 3, 4, 4, 4] + ([] if quick else [5])
     for i in range(ncirc):
         n = rng.choice(ns)
@@ -185,11 +185,11 @@ def gen_cases(tier, seed, M):
     comps = list(compositions(4, 4))
     pairs = list(itertools.product(comps, comps))
     if quick:
-        pairs = rng.sample(pairs, 150) + [(c, c) for c in comps]
+        pairs = rng.sample(pairs, 80) + [(c, c) for c in comps]
     for c, d in pairs:
         cases.append(diag(2, 2, c, d))
     nd_exh = len(cases)
-    for _ in range(120 if quick else 1500):
+    for _ in range(70 if quick else 1500):
         n = rng.choice([2, 3, 3, 4] + ([] if quick else [5]))
         k = rng.choice([3, 4, 5])
         c = random_composition(rng, 1 << k, 1 << n)
@@ -337,6 +337,8 @@ def eval_circ(ctx, c, o, ifaces, ci):
         ctx.cmp("partial_trace", iface, f"n{n}:all", g, np.array([[1.0 + 0j]]), base_rep)
         # purity of every subset (ascending order and one permuted order)
         for m in range(1, 1 << n):
+            if iface != "numpy" and (m + ci) % 2:
+                continue
             ws = wires_of(m, n)
             exp = ctx.sc(o["pur"][m - 1]).real
             tag = f"n{n}:idx{idx0(ws)}"
@@ -369,6 +371,11 @@ def eval_circ(ctx, c, o, ifaces, ci):
         td = math.sqrt(max(0.0, 1.0 - fid))
         g = ctx.call("trace_distance", iface, f"n{n}:pure-pure", lambda: QM.trace_distance(PA, PB), rep)
         ctx.cmp("trace_distance", iface, f"n{n}:pure-pure", g, td, rep, tol=1e-7)
+        # pure (rank one) state against the maximally mixed state: S(|a><a| || 1/D) = ln D  (definition; S(|a><a|) = 0)
+        if iface == "numpy" or ci % 2 == 0:
+            tag = f"rankdef-vs-maxmixed:pure:n{n}"
+            g0 = ctx.call("relative_entropy", iface, tag, lambda: QM.relative_entropy(PA, to_if(np.eye(1 << n, dtype=complex) / (1 << n), iface)), rep)
+            ctx.cmp("relative_entropy", iface, tag, g0, n * LN2, rep)
         if iface == "numpy":
             t_ab = g
             t_ba = ctx.call("trace_distance", iface, f"n{n}:swap", lambda: QM.trace_distance(PB, PA), rep)
@@ -385,6 +392,8 @@ def eval_circ(ctx, c, o, ifaces, ci):
         # stabiliser entropies (integers from the GF(2) rank)
         if c["stab"] == 1:
             for m in range(1, 1 << n):
+                if iface != "numpy" and (m + ci) % 3:
+                    continue
                 ws = wires_of(m, n)
                 r = o["ent"][m - 1]
                 tag = f"n{n}:idx{idx0(ws)}"
@@ -393,7 +402,7 @@ def eval_circ(ctx, c, o, ifaces, ci):
                     f = getattr(QM, fn)
                     g = ctx.call(fn, iface, tag, lambda: f(R, idx0(ws)), rep)
                     ok = ctx.cmp(fn, iface, tag, g, r * LN2, rep)
-                    if iface == "numpy" or m % 3 == 0:
+                    if m % 2 == 0:
                         g = ctx.call(fn, iface, tag + ":base2", lambda: f(R, idx0(ws), base=2), rep)
                         ctx.cmp(fn, iface, tag + ":base2", g, float(r), rep)
                     if ok and r > 0:
@@ -413,9 +422,16 @@ def eval_circ(ctx, c, o, ifaces, ci):
                 ctx.cmp("mutual_info", iface, tag + ":base2", g, float(r), rep)
             # mixed (rank-deficient) stabiliser input: TLC's exact reduced matrix on W as the state, sub-subsets of W
             for j, W in enumerate(c["subs"]):
-                if len(W) == n or len(W) < 1:
+                if len(W) == n or (iface != "numpy" and j % 2):
                     continue
                 RW = to_if(ctx.mat(o["rdm"][j]), iface)
+                # relative entropy to the maximally mixed state: S(rho || 1/D) = ln D - S(rho) = (|W| - r) ln 2
+                rW = o["ent"][mask_of(W, n) - 1]
+                tag = f"rankdef-vs-maxmixed:n{len(W)}"
+                rep = {**base_rep, "state": f"reduced on wires {idx0(W)}", "second": "identity/2^n", "expected_bits": len(W) - rW}
+                g = ctx.call("relative_entropy", iface, tag, lambda: QM.relative_entropy(RW, to_if(np.eye(1 << len(W), dtype=complex) / (1 << len(W)), iface)), rep)
+                if ctx.cmp("relative_entropy", iface, tag, g, (len(W) - rW) * LN2, rep) and len(W) > rW:
+                    ctx.nontriv.add(("relative_entropy:stab", ci, j))
                 for sz in range(1, len(W) + 1):
                     for pos in itertools.combinations(range(len(W)), sz):
                         ws = [W[p] for p in pos]
@@ -427,7 +443,7 @@ def eval_circ(ctx, c, o, ifaces, ci):
                             ctx.nontriv.add(("vn_entropy:mixed", ci, j, pos))
                         g = ctx.call("purity", iface, tag, lambda: QM.purity(RW, list(pos)), rep)
                         ctx.cmp("purity", iface, tag, g, 2.0 ** (-r), rep)
-                        if iface == "numpy":
+                        if iface == "numpy" and sz == len(W):
                             g = ctx.call("max_entropy", iface, tag, lambda: QM.max_entropy(RW, list(pos)), rep)
                             ctx.cmp("max_entropy", iface, tag, g, r * LN2, rep)
                             g = ctx.call("min_entropy", iface, tag, lambda: QM.min_entropy(RW, list(pos)), rep)
@@ -602,7 +618,6 @@ def eval_batched(ctx, cases, outs, common, ifaces):
             ctx.cmp("trace_distance", iface, f"batched:n{n}", g, np.sqrt(np.maximum(0, 1 - fid)), rep0, tol=1e-7)
             nb += 5
         # batched stabiliser entropies
-        sidx = [i for i in idxs if cases[i]["stab"] == 1]
         sidx = [i for i, (c, o) in enumerate(zip(cases, outs)) if c["kind"] == "circ" and c["n"] == n and c["stab"] == 1 and not o["skip"]][:6]
         if len(sidx) >= 2:
             R = np.stack([ctx.mat(outs[i]["rho"]) for i in sidx])
